@@ -264,3 +264,72 @@ def c20_getq(d):
     if bad:
       return {"status": "confirmed", "observed": bad, "expected": "clause %s" % d["clause"]}
   return {"status": "refuted", "observed": {"outcomes_tried": 4}}
+
+
+_C19_EXTRACT_SCRIPT = r'''
+import os, sys, json
+os.environ["TF_USE_LEGACY_KERAS"] = "1"
+sys.path.insert(0, sys.argv[1])
+import tensorflow as tf
+from tensorflow.keras.layers import Input
+from qkeras import QConv2D, QConv1D, QDepthwiseConv2D, QSeparableConv2D, QSeparableConv1D, quantized_bits
+from qkeras.estimate import extract_model_operations
+w = json.loads(sys.argv[2])
+kind = w["kind"]
+g = lambda n, d=1: max(1, min(int(w.get(n, d)), 6))
+q = lambda: quantized_bits(4, 0, 1)
+if kind in ("QConv2D", "QDepthwiseConv2D", "QSeparableConv2D"):
+  kh, kw, ho, wo, ci = g("Kh"), g("Kw"), g("Ho"), g("Wo"), g("Ci")
+  i = Input((ho + kh - 1, wo + kw - 1, ci))
+  if kind == "QConv2D":
+    co = g("Co")
+    x = QConv2D(co, (kh, kw), kernel_quantizer=q(), bias_quantizer=q(), name="layer0")(i)
+    macs = ho * wo * co * kh * kw * ci
+  elif kind == "QDepthwiseConv2D":
+    dm = g("depth_multiplier")
+    x = QDepthwiseConv2D((kh, kw), depth_multiplier=dm, depthwise_quantizer=q(), bias_quantizer=q(), name="layer0")(i)
+    macs = ho * wo * kh * kw * ci * dm
+  else:
+    co = g("Co")
+    x = QSeparableConv2D(co, (kh, kw), depthwise_quantizer=q(), pointwise_quantizer=q(), bias_quantizer=q(), name="layer0")(i)
+    macs = ho * wo * kh * kw * ci + ho * wo * ci * co
+else:
+  k, to, ci, co = g("K"), g("To"), g("Ci"), g("Co")
+  i = Input((to + k - 1, ci))
+  if kind == "QConv1D":
+    x = QConv1D(co, k, kernel_quantizer=q(), bias_quantizer=q(), name="layer0")(i)
+    macs = to * co * k * ci
+  else:
+    x = QSeparableConv1D(co, k, depthwise_quantizer=q(), pointwise_quantizer=q(), bias_quantizer=q(), name="layer0")(i)
+    macs = to * k * ci + to * ci * co
+m = tf.keras.Model(i, x)
+assert tuple(m.output_shape[1:-1]) == ((ho, wo) if kind.endswith("2D") else (to,)), m.output_shape
+ops = extract_model_operations(m)
+print("RESULT " + json.dumps({"reported": int(ops["layer0"]["number_of_operations"]), "macs": int(macs),
+                              "input_shape": list(m.input_shape[1:]), "output_shape": list(m.output_shape[1:])}))
+'''
+
+
+@replayer("c19_extract")
+def c19_extract(d):
+  """extract_model_operations on a real one-layer model (tf_keras 2.x via TF_USE_LEGACY_KERAS=1 in a child process: the
+  Keras 3 of the pinned environment cannot clone Q* layers): reported number_of_operations vs the loop-nest MAC count
+  of the layer for the witness' geometry (sizes capped at 6)."""
+  import json as _json
+  import os
+  import subprocess
+  import sys
+  w = dict(d["witness"] or {})
+  w["kind"] = (w.get("__replay__") or {}).get("kind")
+  w.pop("__replay__", None)
+  if d["clause"] != "count":
+    return {"status": "unsupported", "detail": "clause %s" % d["clause"]}
+  repo = os.environ.get("QKERAS_VERIF_REPO", "/repo")
+  r = subprocess.run([sys.executable, "-c", _C19_EXTRACT_SCRIPT, repo, _json.dumps(w)], capture_output=True, text=True,
+                     timeout=600)
+  line = [l for l in r.stdout.splitlines() if l.startswith("RESULT ")]
+  if not line:
+    return {"status": "error", "detail": (r.stderr or r.stdout)[-800:]}
+  res = _json.loads(line[0][7:])
+  return {"status": "confirmed" if res["reported"] != res["macs"] else "refuted", "observed": res,
+          "expected": "number_of_operations == multiply-accumulate operations of the layer"}
